@@ -560,7 +560,7 @@ class Dispatcher:
         only returned unscheduled operations. For the old behavior, use the
         `unscheduled_operations` method.
         """
-        uncompleted_operations = self.unscheduled_operations()
+        uncompleted_operations = list(self.unscheduled_operations())
         uncompleted_operations.extend(
             scheduled_operation.operation
             for scheduled_operation in self.ongoing_operations()
